@@ -26,6 +26,8 @@ MUTANTS = {
     "store-leaks-pid-lock-on-error": ("filehashstore.py", [("                    self.fhs_logger.info(\"Successfully stored object for pid: %s\", pid)\n                finally:\n                    # Release pid\n                    self._release_object_locked_pids(pid)", "                    self.fhs_logger.info(\"Successfully stored object for pid: %s\", pid)\n                    self._release_object_locked_pids(pid)\n                finally:\n                    pass")], ["C08"]),
     "meta-overwrite-in-place": ("filehashstore.py", [("                shutil.move(metadata_tmp, full_path)\n                self.fhs_logger.debug(\"Successfully put metadata for pid: %s\", pid)", "                with open(full_path, \"wb\") as _dst, open(metadata_tmp, \"rb\") as _src:\n                    for _chunk in iter(lambda: _src.read(4), b\"\"):\n                        _dst.write(_chunk)\n                os.remove(metadata_tmp)\n                self.fhs_logger.debug(\"Successfully put metadata for pid: %s\", pid)")], ["C09", "C12"]),
     "untag-swallow-keeps-pidref": ("filehashstore.py", [("                self._untag_object(pid, cid)\n                raise ue", "                raise ue")], ["C13"]),
+    "config-ns-not-compared": ("filehashstore.py", [("                if key != \"store_path\":\n                    supplied_key = properties[key]", "                if key != \"store_path\" and key != \"store_metadata_namespace\":\n                    supplied_key = properties[key]")], ["C14"]),
+    "config-stale-dirs-accepted-if-empty-refs": ("filehashstore.py", [("                subfolders = [\"objects\", \"metadata\", \"refs\"]", "                subfolders = [\"metadata\", \"refs\"]")], ["C14"]),
 }
 
 
